@@ -88,6 +88,15 @@ def cases() -> List[Dict[str, Any]]:
         "zk/_i.py": "from zope.interface import Interface\nclass IBase(Interface):\n    def m():\n        'doc'\n",
         "zk/asub.py": "from zk._i import IBase\nclass ISub(IBase):\n    def n():\n        'doc'\n",
         "zother.py": "from zk._i import IBase\nclass IOther(IBase):\n    pass\n"}, ["zother.py", "zk"]))
+    # the same with a SIBLING module as the re-exporter (analysed before or after the modules that name the old location); an
+    # InterfaceClass subclass and a schema field class re-exported too
+    out.append(hw("moved-zope-things-sibling-reexporter", {
+        "zk/__init__.py": "",
+        "zk/ibase.py": ("from zope.interface import Interface\nfrom zope.interface.interface import InterfaceClass\nfrom zope import schema\n"
+                        "class IBase(Interface):\n    def m():\n        'doc'\nclass MyIC(InterfaceClass):\n    pass\nclass MyField(schema.TextLine):\n    pass\n"),
+        "zk/mapi.py": "from zk.ibase import IBase, MyIC, MyField\n__all__ = ['IBase', 'MyIC', 'MyField']\n",
+        "zk/asub.py": "from zk.ibase import IBase, MyIC, MyField\nclass ISub(IBase):\n    title = MyField(description='d')\nIMade = MyIC('IMade')\n",
+        "zk/zsub.py": "from zk.ibase import IBase, MyIC, MyField\nclass ISub2(IBase):\n    title = MyField(description='d')\nIMade2 = MyIC('IMade2')\n"}, ["zk"]))
     # a file that does not parse, reached first through an import or first by the main loop
     out.append(hw("unparsable-module-imported", {
         "pk/__init__.py": "", "pk/atool.py": "from pk import legacy\nclass A:\n    pass\n", "pk/ztool.py": "from pk import legacy\nclass Z:\n    pass\n",
